@@ -80,7 +80,7 @@ int main (int argc, char** argv)
         if (i >= -L && i < L) { std::vector<int> want = init; want[slot ((size_t) (i < 0 ? i + L : i))] = 777; if (ex) rc = fail ("a[i] = v raised in range"); else if (want != store) rc = fail ("a[i] = v wrote the wrong element"); }
         else if (!ex) rc = fail ("a[i] = v out of range did not raise"); else if (changed ()) rc = fail ("failed a[i] = v modified the array");
     }
-    else if (fn == "h_setitem_vector_slice" || fn == "h_ro_setitem_vector")
+    else if (fn == "h_setitem_vector_slice" || fn == "h_setitem_vector_slice_masked" || fn == "h_ro_setitem_vector")
     {
         auto ps = selected (S ("s0"), S ("e0"), S ("st")); size_t m = U ("m");
         IA src (m); for (size_t j = 0; j < m; j++) src[j] = (int) UI ("src", (int) j);
@@ -97,6 +97,16 @@ int main (int argc, char** argv)
         if (!writable) { if (!ex) rc = fail ("read-only array: setitem_scalar_mask did not raise"); else if (changed ()) rc = fail ("read-only array modified"); }
         else if (ml != len) { if (!ex) rc = fail ("mask length mismatch did not raise"); }
         else { std::vector<int> want = init; for (size_t k = 0; k < len; k++) if (mk[k]) want[slot (k)] = 777; if (ex) rc = fail ("a[mask] = v raised"); else if (want != store) rc = fail ("a[mask] = v wrote different elements"); }
+    }
+    else if (fn == "h_setitem_vector_mask")
+    {
+        size_t ml = U ("ml"), dl = U ("dl"); IA mk (ml), src (dl); size_t count = 0;
+        for (size_t j = 0; j < ml; j++) { mk[j] = (int) UI ("mk", (int) j); if (mk[j]) count++; }
+        for (size_t j = 0; j < dl; j++) src[j] = (int) UI ("src", (int) j);
+        int ex = run ([&] { view.setitem_vector_mask (mk, src); });
+        if (masked || ml != len || (dl != len && dl != count)) { if (!ex) rc = fail ("a[mask] = b with a masked reference or mismatched lengths did not raise"); else if (changed ()) rc = fail ("failed a[mask] = b modified the array"); }
+        else { std::vector<int> want = init; size_t di = 0; for (size_t k = 0; k < len; k++) if (mk[k]) { want[slot (k)] = dl == len ? src[k] : src[di]; di++; }
+               if (ex) rc = fail ("a[mask] = b raised although the lengths match"); else if (want != store) rc = fail ("a[mask] = b stored different elements"); }
     }
     else if (fn == "h_ro_index_store" || fn == "h_ro_direct_store" || fn == "h_ro_writable_direct_access" || fn == "h_ro_writable_masked_access")
     {
